@@ -74,6 +74,14 @@ func cur() *G {
 	return g
 }
 
+// Current returns the name of the calling managed goroutine ("" if unmanaged).
+func Current() string {
+	if g := cur(); g != nil {
+		return g.Name
+	}
+	return ""
+}
+
 // Managed reports whether the calling goroutine is managed.
 func Managed() bool { return !Free && cur() != nil }
 
